@@ -9,7 +9,8 @@ EXTENDS Directory, Json, IOUtils, SequencesExt
 
 T == ndJsonDeserialize(IOEnv.OBS)
 InitUsers  == << Entry("u1", <<Attr("a1", <<"v1">>), Attr("a2", <<"v2">>), Attr("password", <<"p">>)>>),
-                 Entry("u2", <<Attr("a1", <<"v1">>)>>) >>
+                 Entry("u2", <<Attr("a1", <<"v1">>)>>),
+                 Entry("ub", <<Attr("password", <<"pb">>)>>) >>
 InitGroups == << Entry("g1", <<Attr("member", <<"u1">>)>>) >>
 UserPool  == {"u1", "u2", "n1", "n2"}
 
@@ -30,11 +31,12 @@ NextT ==
   \/ IsOp("setanon") /\ SetAnon(e.b)
   \/ IsOp("settokengroups") /\ SetTokenGroups(IF e.dn = "tg1" THEN TG1 ELSE <<>>)
   \/ IsOp("bind") /\ Bind(e.dn, e.pw)
+  \/ IsOp("bgbind") /\ UNCHANGED dvars          \* summary line of the background binder (see BackgroundBindsConform)
 
 Bad(what, exp, got) == Print(<<"MISMATCH", what, l, exp, got>>, FALSE)
 cur == T[l]
 \* the reply the client received is the model's
-ReplyConforms == cur.op \in {"reset", "bind"} \/ cur.code = reply.code \/ Bad("code", reply, cur.code)
+ReplyConforms == cur.op \in {"reset", "bind", "bgbind"} \/ cur.code = reply.code \/ Bad("code", reply, cur.code)
 \* what a later search returns is what the model holds (C20: added entries are found with their attributes,
 \* deleted ones are gone, modifications are reflected)
 \* attributes are compared as a set of (name, bag of values): the property does not fix an order
@@ -44,28 +46,32 @@ BagOf(s0) == LET s == [i \in 1..Len(s0) |-> Unwrap(s0[i])] IN
 Canon(es) == [i \in 1..Len(es) |-> [dn |-> es[i].dn,
                                      attrs |-> {[name |-> es[i].attrs[k].name, vals |-> BagOf(es[i].attrs[k].vals)] : k \in 1..Len(es[i].attrs)}]]
 SearchConforms ==
-  cur.op = "reset" \/
+  cur.op \in {"reset", "bgbind"} \/
   /\ \A dn \in UserPool : Canon(cur.found[dn]) = Canon(SearchUsers(dn)) \/ Bad(<<"search users", dn>>, SearchUsers(dn), cur.found[dn])
   /\ Canon(cur.found["g1"]) = Canon(SearchGroups("g1")) \/ Bad(<<"search groups", "g1">>, SearchGroups("g1"), cur.found["g1"])
   /\ cur.found["mz"] = <<>> \/ Bad(<<"search", "mz">>, <<>>, cur.found["mz"])
 \* the result code of every search: success exactly when something was found
 SearchCodesConform ==
-  cur.op = "reset" \/ \A dn \in DOMAIN cur.found :
+  cur.op \in {"reset", "bgbind"} \/ \A dn \in DOMAIN cur.found :
      cur.codes[dn] = SearchCode(cur.found[dn]) \/ Bad(<<"search code", dn>>, SearchCode(cur.found[dn]), cur.codes[dn])
 \* the same entries through the route without base DN (base = the entry's DN), whatever token groups are configured
 GenericSearchConforms ==
-  cur.op = "reset" \/ \A dn \in DOMAIN cur.gen :
+  cur.op \in {"reset", "bgbind"} \/ \A dn \in DOMAIN cur.gen :
      \/ /\ Canon(cur.gen[dn]) = Canon(SearchGeneric(dn))
         /\ cur.gcodes[dn] = SearchCode(SearchGeneric(dn))
      \/ Bad(<<"generic search", dn>>, SearchGeneric(dn), <<cur.gen[dn], cur.gcodes[dn]>>)
 \* token groups by SID: the configured entries (S1), nothing for an unknown SID (S9)
 TokenGroupsConform ==
-  cur.op = "reset" \/ \A sid \in DOMAIN cur.sid :
+  cur.op \in {"reset", "bgbind"} \/ \A sid \in DOMAIN cur.sid :
      \/ /\ Canon(cur.sid[sid]) = Canon(SearchSID(sid).found)
         /\ cur.sidcodes[sid] = SearchSID(sid).code
      \/ Bad(<<"token groups", sid>>, SearchSID(sid), <<cur.sid[sid], cur.sidcodes[sid]>>)
 \* C19 on histories: the bind result is the model's for the current users
 BindConforms == cur.op # "bind" \/ cur.code = BindResult(users, allowAnon, cur.dn, cur.pw) \/ Bad("bind", reply, cur.code)
+\* C19 under concurrency: while the operations above ran, another client kept binding as the bystander "ub" (present from
+\* every SetUsers(init) to the next SetUsers(none)); each bind whose whole duration lay inside one such period had the
+\* outcome that period demands (code = number of binds that had another outcome)
+BackgroundBindsConform == cur.op # "bgbind" \/ cur.code = 0 \/ Bad("background binds", 0, cur.code)
 \* every line of every trace is consumed (deterministic trace spec: a state whose next line is not a
 \* reset must have a successor)
 NotStuck == (l < Len(T) /\ T[l + 1].op # "reset") => ENABLED NextT
